@@ -239,6 +239,13 @@ def check_case(prop, c, o, m, verdict, known, counters, sch):
             fail('spec-decode', f'record {i}: specification decoder yields a different record than was written',
                  dict(first_diff=i, read=mr[i] if i < len(mr) else None, written=written[i] if i < len(written) else None))
             return
+        woks = [t[4:] for t in (m.get('raw_full') or '').split(' ') if t.startswith('wok:')]
+        if any(w.split('/')[0] != w.split('/')[1] for w in woks):
+            verdict.violation(dict(replay, kind='precondition', broken='wire_ok (precondition of wire_roundtrip) is false for a record the implementation emitted', wok=woks),
+                              f'{c["id"]}: an emitted record does not satisfy the precondition of the round-trip theorem', no_input=True)
+            counters['precondition'] += 1
+            return
+        counters['records_satisfying_wire_ok'] += sum(int(w.split('/')[0]) for w in woks)
         if m.get('reenc') != 'ok':
             fail('canonical', f'emitted frame differs from the canonical encoding of its own content ({m.get("reenc", "")[:60]})'); return
     counters['clean'] += 1
